@@ -10,24 +10,29 @@ import (
 
 // standard seeds shared by the history-quantified properties
 const (
-	scStatic3    = "static:3:45"
-	scStatic4    = "static:4:56"
-	scSilent4    = "silent:4:60:3:14"
-	scSilent5    = "silent:5:70:4:10"
-	scLate4      = "late:36"
-	scJoin3      = "join:3:5:84"
-	scLeave4     = "leave:4:6:84"
-	scJoin2      = "join:2:4:60"
-	scTwoLeaves  = "twoleaves:5:8:90"
-	scJoinLeave  = "joinleave:4:6:84"
-	scLaggards7  = "laggards:7:2:14:60:70"
-	scLaggards4  = "laggards:4:1:8:40:50"
-	scRejoin4    = "rejoin:4:6:50:90"
-	scRefused3   = "refused:3:5:84"
-	scPart4      = "partition:4:2:10:24:40"
-	scPart5      = "partition:5:3:10:30:50"
-	scDups3      = "dups:3:45"
-	scUnknownItx = "unknownitx:3:6:50"
+	scStatic3   = "static:3:45"
+	scStatic4   = "static:4:56"
+	scSilent4   = "silent:4:60:3:14"
+	scSilent5   = "silent:5:70:4:10"
+	scLate4     = "late:36"
+	scJoin3     = "join:3:5:84"
+	scLeave4    = "leave:4:6:84"
+	scJoin2     = "join:2:4:60"
+	scTwoLeaves = "twoleaves:5:8:90"
+	scJoinLeave = "joinleave:4:6:84"
+	scLaggards7 = "laggards:7:2:14:60:70"
+	scLaggards4 = "laggards:4:1:8:40:50"
+	scRejoin4   = "rejoin:4:6:50:90"
+	// a minority validator records a transaction in an event that nobody hears of for 50 / 70 steps (the others advance
+	// by some ten rounds meanwhile), while it keeps pulling / while it is cut off completely
+	scUnheard4    = "unheard:4:1:8:50:50:1"
+	scUnheard4cut = "unheard:4:1:8:50:50:0"
+	scUnheard7    = "unheard:7:2:14:70:70:1"
+	scRefused3    = "refused:3:5:84"
+	scPart4       = "partition:4:2:10:24:40"
+	scPart5       = "partition:5:3:10:30:50"
+	scDups3       = "dups:3:45"
+	scUnknownItx  = "unknownitx:3:6:50"
 	// irregular schedules (one validator initiating four times less often) with a leave / a join + a leave at
 	// step 8, picked offline among 2400 such schedules: in these, fame elections stay open long enough for a
 	// validator-set change to become effective while some node has not yet delivered the block that carries
@@ -63,7 +68,7 @@ func standardPhases(mons []string, suffix int, thorough bool) []Phase {
 		add("S1 n=3 depth 5 {6 gossip pairs,T0,T1,T2}", s1Items("s1:3:0", 5, 2, mons))
 	}
 	// S3: deviation bounded around fair seeds
-	seeds := []string{scStatic3, scStatic4, scSilent4, scSilent5, scLate4, scJoin3, scLeave4, scJoin2, scTwoLeaves, scJoinLeave, scLaggards7, scLaggards4, scRejoin4, scRefused3, scPart4, scPart5, scDups3, scIrrA, scIrrB, scIrrC, scIrrD, scIrrE, scUnknownItx, "badgernode:1:40:" + scStatic4, "badgernode:0:40:" + scJoin3, "badgernode:2:40:" + scLeave4}
+	seeds := []string{scStatic3, scStatic4, scSilent4, scSilent5, scLate4, scJoin3, scLeave4, scJoin2, scTwoLeaves, scJoinLeave, scLaggards7, scLaggards4, scRejoin4, scRefused3, scPart4, scPart5, scDups3, scIrrA, scIrrB, scIrrC, scIrrD, scIrrE, scUnknownItx, scUnheard4, scUnheard4cut, scUnheard7, "badgernode:1:40:" + scStatic4, "badgernode:0:40:" + scJoin3, "badgernode:2:40:" + scLeave4}
 	var d0 []sched.Item
 	for _, s := range seeds {
 		d0 = append(d0, s3Items(s, 0, nil, nil, mons, suffix)...)
